@@ -5,6 +5,8 @@ CONSTANTS
   Exps <- ExpsT
   InitExps <- ExpsT
   EndVecs <- OneEnd
+  CycSet <- CycParamsQ
+  Cyc = FALSE
 SPECIFICATION Spec
 INVARIANTS DefinitionsAgree VitMeaning VitResult MantissaBound NoStall
 PROPERTY Progress
